@@ -6,9 +6,6 @@ CONSTANTS
   Gate = TRUE
 SPECIFICATION Spec
 INVARIANT TypeOK
-INVARIANT ValidJson
-INVARIANT RoundTrip
 INVARIANT GapOK
-INVARIANT RootOK
-INVARIANT EmitInv
+INVARIANT CheckAndEmit
 CHECK_DEADLOCK FALSE
